@@ -78,6 +78,7 @@ class Universe:
         self.methods = {}
         self.classes = set()
         self.module_globals = {}
+        self.class_mutables = {}          # class name -> names of class-level attributes bound to a mutable literal (shared by every instance)
         for dp, dn, fn in os.walk(os.path.join(root, package)):
             if any(s in dp for s in skip):
                 continue
@@ -102,6 +103,10 @@ class Universe:
                 for sub in node.body:
                     if isinstance(sub, (ast.FunctionDef, ast.AsyncFunctionDef)):
                         self._add(Func(mod, f"{node.name}.{sub.name}", sub, cls=node.name))
+                    elif isinstance(sub, (ast.Assign, ast.AnnAssign)) and sub.value is not None and _is_mutable_literal(sub.value):
+                        for t in (sub.targets if isinstance(sub, ast.Assign) else [sub.target]):
+                            if isinstance(t, ast.Name):
+                                self.class_mutables.setdefault(node.name, set()).add(t.id)
             elif isinstance(node, (ast.Assign, ast.AnnAssign)):
                 targets = node.targets if isinstance(node, ast.Assign) else [node.target]
                 v = node.value
@@ -167,7 +172,12 @@ class Analyzer(ast.NodeVisitor):
                 return {("global", self.f.module, e.id)}
             return {FRESH}
         if isinstance(e, ast.Attribute):
-            return self._deep(self.val(e.value))
+            out = self._deep(self.val(e.value))
+            # `self.X` inside a method of a class whose body binds X to a mutable literal: unless the instance re-binds it, this IS the one object
+            # shared by every instance (and by every analysis) -- module-level state reached through an instance
+            if isinstance(e.value, ast.Name) and e.value.id == "self" and self.f.cls and e.attr in self.u.class_mutables.get(self.f.cls, ()):
+                out = set(out) | {("global", self.f.module, f"{self.f.cls}.{e.attr}")}
+            return out
         if isinstance(e, ast.Subscript):
             return self._deep(self.val(e.value))
         if isinstance(e, ast.Starred):
